@@ -26,6 +26,14 @@ func (c *Ctx) Obj(rel, name string) types.Object {
 
 // TryObj is Obj without the panic.
 func (c *Ctx) TryObj(rel, name string) types.Object {
+	if o := c.lookupObj(rel, name); o != nil {
+		return o
+	}
+	// absent under this name: a pure rename is followed (renames.go)
+	return c.renamed(rel, name)
+}
+
+func (c *Ctx) lookupObj(rel, name string) types.Object {
 	p := c.Pkg(rel)
 	if p == nil {
 		return nil
@@ -95,6 +103,11 @@ func (c *Ctx) Global(rel, name string) *ssa.Global {
 	}
 	g, ok := sp.Members[name].(*ssa.Global)
 	if !ok {
+		if o := c.renamed(rel, name); o != nil {
+			if g2, ok := sp.Members[o.Name()].(*ssa.Global); ok {
+				return g2
+			}
+		}
 		panic(AnchorError{rel + "." + name + " (global)"})
 	}
 	return g
